@@ -13,6 +13,7 @@ import (
 	"bytes"
 	"fmt"
 	"net"
+	"os"
 	"runtime"
 	"strings"
 	"testing"
@@ -372,7 +373,7 @@ func FuzzPipeline(f *testing.F) {
 func TestC08(t *testing.T) {
 	V.Rule("unit: sequences of 1-6 inputs per fresh proxy pushed through the synchronous pipeline decode -> learn -> stamp -> register -> consume Route -> pin -> route -> relay (UDP-like and TCP-like arrival, requests and responses): structurally valid generated messages with 1-3 hostile fields (absurd / negative / non-numeric Content-Length, bracket-only / empty / huge Via hosts, hostile Route / From / To / CSeq / start lines, missing mandatory or duplicated singleton headers, thousands of headers / Via entries / parameters, hostile tags, odd Expires), truncations and random byte strings; oracle: no panic, returns within 15 s, TotalAlloc growth per input <= 512*len + 1 MiB (decoding is allowed a large constant factor, not an allocation that ignores how many bytes arrived). lab: the same inputs plus random and oversized bytes against real UDP and TCP listeners; after every batch a sentinel request must still be relayed, a TCP connection that carried undecodable bytes must have been closed, new connections must be served. The native coverage-guided target FuzzPipeline runs in the thorough tier. non-trivial = input that decodes (reaches routing) and contains >= 1 hostile field; distinct by input bytes")
 	V.Assume("egress hygiene: when the product itself computes a non-UDP next hop outside 127/8 for an input, the harness does not let that input reach the relay step (counted as neutralised); UDP sends cannot block")
-	V.Require("decoded with hostile field", "rejected by the decoder", "tcp-like arrival", "udp-like arrival", "response", "lab: sentinel relayed after hostile batch", "lab: garbage TCP connection closed")
+	V.Require("bin: process alive and RSS bounded after hostile batch", "decoded with hostile field", "rejected by the decoder", "tcp-like arrival", "udp-like arrival", "response", "lab: sentinel relayed after hostile batch", "lab: garbage TCP connection closed")
 
 	rcheck(t, "pipeline", V.N(2500, 20000), func(rt *rapid.T) {
 		p, _ := c08NewProxy()
@@ -435,16 +436,24 @@ func TestC08(t *testing.T) {
 		V.SampleEvery(300, func() any { return seq })
 	})
 
-	t.Run("lab", func(t *testing.T) {
+	labRun := func(t *testing.T, bin bool) {
 		if V.replay && V.only == "" {
 			return
 		}
-		svc, err := newStdSvc(stdVariant{NoReceived: [3]string{"", "true", ""}})
+		svc, err := newStdSvc(stdVariant{NoReceived: [3]string{"", "true", ""}, Bin: bin})
 		if err != nil {
 			V.HarnessError(t, "cannot start lab instance: %v", err)
 		}
 		s := svc
 		batches := V.N(30, 300)
+		var bytesSent int64
+		rss0 := 0
+		if bin {
+			defer s.in.stopBin()
+			batches = V.N(25, 300)
+			time.Sleep(200 * time.Millisecond)
+			rss0 = s.in.binRSSKiB()
+		}
 		ua := s.uas[0]
 		l := s.in.cfg.Listens[0]
 		sentinel := func(what string, batch any) bool {
@@ -496,6 +505,7 @@ func TestC08(t *testing.T) {
 				batch = append(batch, fmt.Sprintf("%d bytes via %s: %s", len(data), map[bool]string{true: "tcp", false: "udp"}[viaTCP], jsonBytes(data[:min(len(data), 200)])))
 				V.Journal(t.Name()+"/batches", batch)
 				V.Eval()
+				bytesSent += int64(len(data))
 				if viaTCP {
 					// half of the TCP traffic goes to the listen entry with received-support off
 					tl := l
@@ -550,6 +560,26 @@ func TestC08(t *testing.T) {
 				V.Class("lab: garbage TCP connection closed")
 			}
 			s.in.hub.drain()
+			if bin {
+				if d := s.in.binDead(); d != "" {
+					failf(rt, "%s\nbatch: %v", d, batch)
+				}
+				// resident set size of the real process stays in proportion to what was sent
+				rss := s.in.binRSSKiB()
+				if limit := rss0 + 64*1024 + int(4*bytesSent/1024); rss > limit {
+					failf(rt, "resident set size of the sipproxy process grew from %d KiB to %d KiB after %d bytes of input (limit %d KiB)", rss0, rss, bytesSent, limit)
+				}
+				V.Class("bin: process alive and RSS bounded after hostile batch")
+			}
 		})
-	})
+		if bin {
+			V.Extra("bin_rss_kib_start", rss0)
+			V.Extra("bin_rss_kib_end", s.in.binRSSKiB())
+			V.Extra("bin_bytes_sent", bytesSent)
+		}
+	}
+	t.Run("lab", func(t *testing.T) { labRun(t, false) })
+	if os.Getenv("VERIF_BIN") != "" {
+		t.Run("bin", func(t *testing.T) { labRun(t, true) })
+	}
 }
